@@ -28,7 +28,7 @@ class Unsupported(Exception):
 # kinds: 'int' 'bool' 'str' 'list' 'dict' 'mv' 'coef' 'fun' 'alg' 'tuple' 'opt:<kind>' 'signs' None(unknown)
 class T:
     """a translation target"""
-    def __init__(self, file, qual, lean, params, ret, locals=None, tparams='', uses_alg=False, coef=False, self_name=None, uses_ops=False, uses_mops=False, consts=None, state=None, externals=None, drop_assign=(), env=None, state_type=None):
+    def __init__(self, file, qual, lean, params, ret, locals=None, tparams='', uses_alg=False, coef=False, self_name=None, uses_ops=False, uses_mops=False, consts=None, state=None, externals=None, drop_assign=(), env=None, state_type=None, region=None, self_locals=(), strkey=()):
         self.file, self.qual, self.lean = file, qual, lean
         self.params = params          # list of (pyname, leantype, kind)
         self.ret = ret
@@ -40,6 +40,10 @@ class T:
         self.uses_mops = uses_mops    # gets an `(ops : MatOps μ)` parameter: numpy's matrix operations
         self.uses_ops = uses_ops      # gets an `(ops : Ops α)` parameter: the algebra's operators on multivectors
         self.elem_kind = {}
+        self.items_kinds = {}         # dict variable -> 'keykind,valuekind' of its items
+        self.region = region          # translate only the `if <region>:` statement of the function, as a function of its own
+        self.self_locals = set(self_locals)  # `self.<name>` read/written in the region: parameters / locals / results
+        self.strkey = set(strkey)     # dicts keyed by strings (a character used as key is a one-character string)
         self.consts = consts or {}    # python parameters fixed to a constant (partial evaluation): not parameters in Lean
         self.state = state or {}      # method mode: python expression (text) -> (field of the state record, kind)
         self.externals = externals or {}   # python expression (text) -> (lean code, kind): calls out of the modelled core
@@ -102,6 +106,14 @@ TARGETS = [
       locals={'num': (MV, 'mv')}, tparams=COEF, uses_alg=True, uses_ops=True, consts={'symbolic': True}, self_name='alg'),
     T('kingdon/algebra.py', 'Algebra._blade2canon', 'blade2canon', [('basis_blade', 'List Char', 'str')], 'List Char × Int',
       uses_alg=True, self_name='self', locals={'bin': ('Int', 'int')}),
+    # ---- the naming part of Algebra.__post_init__: one region of the method as a function ----
+    T('kingdon/algebra.py', 'Algebra.__post_init__', 'post_init_names',
+      [('basis', 'List (List Char)', 'list:str'), ('d', 'Int', 'int'), ('start_index', 'Int', 'int')],
+      'Int × Py.Dict (List Char) Int × Py.Dict Int (List Char)',
+      region='self.basis', self_locals=['basis', 'd', 'start_index', 'canon2bin', 'bin2canon'],
+      locals={'canon2bin': ('Py.Dict (List Char) Int', 'dict:int'), 'bin2canon': ('Py.Dict Int (List Char)', 'dict:str'),
+              'vec2bin': ('Py.Dict (List Char) Int', 'dict:int')},
+      externals={'len(self)': ('(Py.pow (2 : Int) d)', 'int')}, strkey=['vec2bin']),
     # ---- matrix representations (matrixreps.py), generic in the matrix type ----
     T('kingdon/matrixreps.py', 'ordering_matrix', 'ordering_matrix', [('Rs', 'List μ', 'list')], 'μ', tparams='{μ : Type}', uses_mops=True,
       externals={'Ri[:, 0]': ('(ops.col0 Ri)', 'mat'), 'np.vstack(columns)': ('(ops.vstack columns)', 'mat')}),
@@ -129,6 +141,10 @@ TARGETS = [
                  'self.algebra.simp_func': ('env.simp_func', 'bool'), 'self.filter(keys_out, values_out)': ('(env.filter keys_out values_out)', 'tuple'),
                  'MultiVector.fromkeysvalues(self.algebra, keys=keys_out, values=values_out)': ('(keys_out, values_out)', 'tuple')}),
 ]
+for _t in TARGETS:
+    if _t.lean == 'post_init_names':
+        _t.ret_names = ['start_index', 'canon2bin', 'bin2canon']
+        _t.items_kinds = {'canon2bin': 'str,int', 'bin2canon': 'int,str'}
 BY_PY = {t.qual.split('.')[-1]: t for t in TARGETS}
 
 HEADER = '''/-
@@ -209,6 +225,34 @@ def find_func(tree, qual):
             raise Unsupported(f'function {qual} not found')
         node = found
     return node
+
+
+class _SelfToLocal(ast.NodeTransformer):
+    def __init__(self, names):
+        self.names = names
+
+    def visit_Attribute(self, node):
+        self.generic_visit(node)
+        if isinstance(node.value, ast.Name) and node.value.id == 'self' and node.attr in self.names:
+            return ast.copy_location(ast.Name(id=node.attr, ctx=node.ctx), node)
+        return node
+
+
+def region_function(t, fn):
+    """the statement `if <t.region>: ... else: ...` of `fn` as a function of its own: `self.<name>` for the names in
+    t.self_locals become parameters / locals, and the function returns the tuple of the names listed in t.ret_names"""
+    import copy
+    hit = [st for st in ast.walk(fn) if isinstance(st, ast.If) and ast.unparse(st.test) == t.region]
+    if len(hit) != 1:
+        raise Unsupported(f'region `if {t.region}:` not found exactly once')
+    node = _SelfToLocal(t.self_locals).visit(copy.deepcopy(hit[0]))
+    ret = ast.Return(value=ast.Tuple(elts=[ast.Name(id=n, ctx=ast.Load()) for n in t.ret_names], ctx=ast.Load()))
+    args = ast.arguments(posonlyargs=[], args=[ast.arg(arg=p) for p, _, _ in t.params], kwonlyargs=[], kw_defaults=[], defaults=[])
+    f2 = ast.FunctionDef(name=fn.name, args=args, body=[node, ret], decorator_list=[], lineno=hit[0].lineno, col_offset=0)
+    ast.fix_missing_locations(f2)
+    f2.lineno = hit[0].lineno
+    f2._src_node = hit[0]
+    return f2
 
 
 class Tr:
@@ -360,6 +404,12 @@ class Tr:
                 return f'(ops.{ {"BitXor": "op", "BitOr": "ip"}[op] } {a} {b})', 'mv'
             if op in ('BitXor', 'BitOr', 'BitAnd'):
                 return f'(Py.{ {"BitXor": "xor", "BitOr": "lor", "BitAnd": "land"}[op] } {a} {b})', 'int'
+            if op == 'Add' and 'str' in (ka, kb):
+                a2 = f'[{a}]' if ka == 'char' else a
+                b2 = f'[{b}]' if kb == 'char' else b
+                return f'({a2} ++ {b2})', 'str'
+            if op == 'BitAnd' and ka == 'int' and kb == 'int':
+                return f'(Py.land {a} {b})', 'int'
             if op == 'MatMult':
                 return f'(ops.matmul {a} {b})', 'mat'
             if op == 'Pow' and ka == 'int' and kb == 'int':
@@ -398,6 +448,8 @@ class Tr:
             b, kb = self.E(node.comparators[0])
             op = type(node.ops[0]).__name__
             if op in ('Eq', 'NotEq'):
+                if ka == 'char' and kb == 'str' and isinstance(node.comparators[0], ast.Constant) and len(node.comparators[0].value) == 1:
+                    b = f"'{node.comparators[0].value}'"
                 return f'({a} {"==" if op == "Eq" else "!="} {b})', 'bool'
             if op in ('Lt', 'Gt', 'LtE', 'GtE'):
                 sym = {'Lt': '<', 'Gt': '>', 'LtE': '≤', 'GtE': '≥'}[op]
@@ -405,7 +457,7 @@ class Tr:
             if op in ('In', 'NotIn'):
                 if kb in ('dict', 'mv') or (kb or '').startswith('dict:'):
                     c = f'(Py.dictHas {b} {a})'
-                elif kb in ('list', 'str'):
+                elif kb in ('list', 'str') or (kb or '').startswith('list:'):
                     c = f'({b}.contains {a})'
                 else:
                     raise Unsupported(f'`in` on kind {kb}')
@@ -477,6 +529,9 @@ class Tr:
                 if kv == 'mv':
                     return f'(ops.e {v})', 'coef'
             raise Unsupported(f'attribute {node.attr}')
+        if isinstance(node, ast.Subscript) and isinstance(node.value, ast.Call) and isinstance(node.value.func, ast.Name) \
+                and node.value.func.id == 'hex' and ast.unparse(node.slice) == '2:':
+            return f'(Py.hexStr {self.E(node.value.args[0])[0]})', 'str'
         if isinstance(node, ast.Subscript):
             v, kv = self.E(node.value)
             if isinstance(node.slice, ast.Slice):
@@ -485,15 +540,23 @@ class Tr:
                     lo, _ = self.E(s.lower)
                     return f'(Py.sliceFrom {v} {lo})', kv
                 raise Unsupported('slice form')
+            if (kv or '').startswith('tuple:') and isinstance(node.slice, ast.Constant) and node.slice.value in (0, 1):
+                return f'{v}.{node.slice.value + 1}', (kv[6:].split(',')[node.slice.value] or None)
             if kv == 'tuple' and isinstance(node.slice, ast.Constant) and node.slice.value in (0, 1):
                 return f'{v}.{node.slice.value + 1}', 'int'
             i, ki = self.E(node.slice)
             if kv == 'signs':
                 return f'(alg.signs {i})', 'int'
+            if (kv or '').startswith('dictkv:'):
+                if ki == 'char' and (v in self.t.strkey or kv[7:].split(',')[0] == 'str'):
+                    i = f'[{i}]'
+                return f'(← Py.dictGet {v} {i})', (kv[7:].split(',')[1] or None)
             if kv in ('dict', 'mv') or (kv or '').startswith('dict:'):
+                if ki == 'char' and v in self.t.strkey:
+                    i = f'[{i}]'
                 return f'(← Py.dictGet {v} {i})', ('coef' if kv == 'mv' else kv[5:] if kv.startswith('dict:') else None)
             if kv in ('list', 'str') or (kv or '').startswith('list:'):
-                return f'(← Py.getItem {v} {i})', ('int' if v == 'alg.signature' else kv[5:] if (kv or '').startswith('list:') else self.t.elem_kind.get(v))
+                return f'(← Py.getItem {v} {i})', ('int' if v == 'alg.signature' else 'char' if kv == 'str' else kv[5:] if (kv or '').startswith('list:') else self.t.elem_kind.get(v))
             raise Unsupported(f'subscript on kind {kv}')
         if isinstance(node, ast.Call):
             return self.call(node)
@@ -518,22 +581,33 @@ class Tr:
                     raise Unsupported('f-string form')
             return '(' + ' ++ '.join(parts) + ')', 'str'
         if isinstance(node, (ast.GeneratorExp, ast.ListComp)):
-            if len(node.generators) != 1 or node.generators[0].ifs:
+            if len(node.generators) != 1 or len(node.generators[0].ifs) > 1:
                 raise Unsupported('comprehension form')
             g = node.generators[0]
             it, kit = self.E(g.iter)
             saved = dict(self.kinds)
-            if isinstance(g.target, ast.Name):
-                is_range = isinstance(g.iter, ast.Call) and isinstance(g.iter.func, ast.Name) and g.iter.func.id == 'range'
-                self.kinds[g.target.id] = 'char' if kit == 'str' else 'int' if (is_range or kit == 'list:int') else 'list:int' if kit == 'list:list:int' else None
+            self.comp_target_kinds(g.target, g.iter, kit)
             npre = len(self.pre)
+            cond = None
+            lets = ''
+            if g.ifs:
+                self.pre, outer = [], self.pre
+                cond = self.truth(g.ifs[0])
+                lets = ''.join(f'{st}; ' for st in self.pre)        # a walrus in the filter binds a name for the element
+                self.pre = outer
             body, kb = self.E(node.elt)
             self.kinds = saved
             if len(self.pre) != npre:
                 raise Unsupported('comprehension whose element binds names')
-            if '←' in body:
-                return f'(← ({it}).mapM (fun {self.pat(g.target)} => do pure {body}))', 'list'
-            return f'(({it}).map (fun {self.pat(g.target)} => {body}))', 'list'
+            pat = self.pat(g.target)
+            ek = 'list:' + kb if kb in ('str', 'int', 'mat') else 'list'
+            if '←' in body or '←' in (cond or '') or '←' in lets:
+                if cond is None:
+                    return f'(← ({it}).mapM (fun {pat} => do pure {body}))', ek
+                return f'((← ({it}).mapM (fun {pat} => do {lets}pure (if {cond} then some {body} else none))).filterMap id)', ek
+            if cond is None:
+                return f'(({it}).map (fun {pat} => {body}))', ek
+            return f'(({it}).filterMap (fun {pat} => ({lets}if {cond} then some {body} else none)))', ek
         if isinstance(node, ast.DictComp):
             return self.dictcomp(node)
         raise Unsupported(f'expression {type(node).__name__}')
@@ -549,6 +623,37 @@ class Tr:
             raise Unsupported('lambda whose body can raise or binds names')
         self.kinds = saved
         return f'(fun {" ".join(args)} => {body})', 'fun'
+
+    def comp_target_kinds(self, target, it_node, kit):
+        is_range = isinstance(it_node, ast.Call) and isinstance(it_node.func, ast.Name) and it_node.func.id == 'range'
+        def setk(t, k):
+            if isinstance(t, ast.Name):
+                self.kinds[t.id] = k
+        if isinstance(target, ast.Name):
+            setk(target, 'char' if kit == 'str' else 'int' if (is_range or kit == 'list:int') else 'str' if kit == 'list:str'
+                 else 'list:int' if kit == 'list:list:int' else 'tuple' if kit == 'list:tuple' else None)
+        elif isinstance(target, (ast.Tuple, ast.List)):
+            ks = None
+            if isinstance(it_node, ast.Call) and isinstance(it_node.func, ast.Name) and it_node.func.id == 'enumerate':
+                inner = self.E(it_node.args[0])[1]
+                ks = ['int', 'str' if inner == 'list:str' else None]
+            elif (kit or '').startswith('items:'):
+                ks = kit[6:].split(',')
+            for t, k in zip(target.elts, ks or [None] * len(target.elts)):
+                setk(t, k if k != '' else None)
+
+    def keylam(self, node, kit):
+        """a sort key `lambda x: ...` over the elements of an iterable of kind kit"""
+        if not isinstance(node, ast.Lambda) or len(node.args.args) != 1:
+            raise Unsupported('sort key form')
+        a = node.args.args[0].arg
+        saved = dict(self.kinds)
+        self.kinds[a] = 'tuple:' + kit[6:] if (kit or '').startswith('items:') else None
+        body = self.E(node.body)[0]
+        self.kinds = saved
+        if '←' in body:
+            raise Unsupported('sort key that can raise')
+        return f'(fun {a} => {body})'
 
     def lam2(self, node):
         args = [a.arg for a in node.args.args]
@@ -573,21 +678,24 @@ class Tr:
         if len(node.generators) != 1 or node.generators[0].ifs or node.generators[0].is_async:
             raise Unsupported('dict comprehension form')
         g = node.generators[0]
-        it, _ = self.E(g.iter)
+        it, kit = self.E(g.iter)
         pat = self.pat(g.target)
         saved = dict(self.kinds)
         self.bind_pat_kinds(g.target, g.iter)
+        self.comp_target_kinds(g.target, g.iter, kit) if (kit or '').startswith(('items:', 'list:')) or (
+            isinstance(g.iter, ast.Call) and isinstance(g.iter.func, ast.Name) and g.iter.func.id in ('enumerate', 'range')) else None
         outer_pre, self.pre = self.pre, []
-        k, _ = self.E(node.key)
-        v, _ = self.E(node.value)
+        k, kk = self.E(node.key)
+        v, kvv = self.E(node.value)
         inner, self.pre = self.pre, outer_pre
         self.kinds = saved
         body = ''.join(f'{s}; ' for s in inner)
+        kind = f'dictkv:{kk or ""},{kvv or ""}'
         if '←' in k + v + body:
-            return f'(Py.dictOf (← ({it}).mapM (fun {pat} => do {body}pure ({k}, {v}))))', 'dict'
+            return f'(Py.dictOf (← ({it}).mapM (fun {pat} => do {body}pure ({k}, {v}))))', kind
         if inner:
-            return f'(Py.dictOf (({it}).map (fun {pat} => ({body}({k}, {v})))))', 'dict'
-        return f'(Py.dictOf (({it}).map (fun {pat} => ({k}, {v}))))', 'dict'
+            return f'(Py.dictOf (({it}).map (fun {pat} => ({body}({k}, {v})))))', kind
+        return f'(Py.dictOf (({it}).map (fun {pat} => ({k}, {v}))))', kind
 
     def bind_pat_kinds(self, tg, it):
         """kinds of loop variables from the shape of the iterable"""
@@ -639,9 +747,30 @@ class Tr:
             if n == 'enumerate' and len(args) == 1:
                 return f'(Py.enumerate {self.E(args[0])[0]})', 'list'
             if n == 'dict' and len(args) == 1:
-                return f'(Py.dictOf {self.E(args[0])[0]})', 'dict'
+                c0, k0 = self.E(args[0])
+                return f'(Py.dictOf {c0})', ('dictkv:' + k0[6:] if (k0 or '').startswith('items:') else 'dict')
             if n == 'Fraction' and len(args) == 2 and not kw:
                 return f'({self.E(args[0])[0]}, {self.E(args[1])[0]})', 'tuple'
+            if n == 'all' and len(args) == 1 and not kw:
+                return f'(({self.E(args[0])[0]}).all id)', 'bool'
+            if n == 'min' and len(args) == 1 and not kw:
+                c0, k0 = self.E(args[0])
+                if k0 == 'list:str':
+                    return f'(← Py.minStr {c0})', 'str'
+                raise Unsupported('min of this kind')
+            if n == 'int' and len(args) == 1 and not kw:
+                c0, k0 = self.E(args[0])
+                if k0 == 'str':
+                    return f'(← Py.intOfStr {c0})', 'int'
+                raise Unsupported('int() of this kind')
+            if n == 'sorted' and len(args) == 1 and set(kw) <= {'key'}:
+                c0, k0 = self.E(args[0])
+                if 'key' not in kw:
+                    raise Unsupported('sorted without key')
+                keyf = 'Py.len' if ast.unparse(kw['key']) == 'len' else self.keylam(kw['key'], k0)
+                return f'(Py.sorted {keyf} {c0})', k0
+            if n == 'reduce' and len(args) == 3 and ast.unparse(args[0]) == 'operator.xor' and not kw:
+                return f'(({self.E(args[1])[0]}).foldl Py.xor {self.E(args[2])[0]})', 'int'
             if n == 'reduce' and len(args) == 2 and ast.unparse(args[0]) == 'operator.or_':
                 return f'(← Py.reduce Py.lor {self.E(args[1])[0]})', 'int'
             if n == 'reduce' and len(args) in (2, 3) and not kw:
@@ -671,7 +800,12 @@ class Tr:
                     and len(args) == 1 and isinstance(args[0], ast.Constant) and args[0].value == '1':
                 return f'(Py.popcount {self.E(f.value.args[0])[0]})', 'int'
             if f.attr == 'join' and isinstance(f.value, ast.Constant) and f.value.value == '' and len(args) == 1:
-                return self.E(args[0])[0], 'str'
+                c0, k0 = self.E(args[0])
+                if k0 == 'list:str':
+                    return f'(List.flatten {c0})', 'str'
+                return c0, 'str'
+            if f.attr == 'bit_length' and not args:
+                return f'(Py.bitLength {self.E(f.value)[0]})', 'int'
             v, kv = self.E(f.value)
             if kv == 'mv' and self.t.uses_ops and f.attr in ('conjugate', 'involute', 'reverse') and not args:
                 return f'(ops.{f.attr} {v})', 'mv'
@@ -684,17 +818,21 @@ class Tr:
                     # `d.get(k, False)`: absent or the value; python then tests its truthiness
                     return f'(Py.dictGet? {v} {self.E(args[0])[0]})', 'opt:' + (kv[5:] if kv.startswith('dict:') else 'val')
                 return f'(Py.dictGetD {v} {self.E(args[0])[0]} {self.E(args[1])[0]})', (kv[5:] if kv.startswith('dict:') else None)
-            if f.attr == 'copy' and kv == 'list' and not args:
+            if f.attr == 'copy' and (kv == 'list' or (kv or '').startswith('list:')) and not args:
                 return v, 'list'
-            if f.attr == 'items' and kv in ('mv', 'dict') and not args:
+            if f.attr == 'items' and (kv or '').startswith('dictkv:') and not args:
+                return v, 'items:' + kv[7:]
+            if f.attr == 'items' and v in self.t.items_kinds and not args:
+                return v, 'items:' + self.t.items_kinds[v]
+            if f.attr == 'items' and (kv in ('mv', 'dict') or (kv or '').startswith('dict')) and not args:
                 return v, 'list'
             if f.attr == 'values' and kv in ('mv', 'dict') and not args:
                 return f'(Py.dictValues {v})', 'list'
             if f.attr == 'keys' and kv in ('mv', 'dict') and not args:
                 return f'(Py.dictKeys {v})', 'list'
-            if f.attr == 'index' and kv in ('list', 'str') and len(args) == 1:
+            if f.attr == 'index' and (kv in ('list', 'str') or (kv or '').startswith('list:')) and len(args) == 1:
                 return f'(← Py.index {v} {self.E(args[0])[0]})', 'int'
-            if f.attr == 'pop' and kv in ('list', 'str') and len(args) == 1 and isinstance(f.value, ast.Name):
+            if f.attr == 'pop' and (kv in ('list', 'str') or (kv or '').startswith('list:')) and len(args) == 1 and isinstance(f.value, ast.Name):
                 t = self.fresh('popped')
                 self.pre.append(f'let {t} ← Py.pop {v} {self.E(args[0])[0]}')
                 self.pre.append(f'{v} := {t}.2')
@@ -1047,8 +1185,10 @@ def generate():
             continue
         fn = FUNCS[t.qual]
         try:
+            if t.region:
+                fn = region_function(t, fn)
             code = Tr(t, fn).function()
-            src = ast.get_source_segment(open(os.path.join(REPO, t.file)).read(), fn) or ''
+            src = ast.get_source_segment(open(os.path.join(REPO, t.file)).read(), getattr(fn, '_src_node', fn)) or ''
             src = '\n'.join(l for l in src.split('\n'))
             chunks.append(f'/- {t.file}:{fn.lineno}\n{src.replace("/-", "/ -").replace("-/", "- /")}\n-/\n{code}\n')
             report[t.lean] = 'ok'
